@@ -22,7 +22,7 @@ Proof. destruct i as [|c r]; cbn; [reflexivity|]. now intros ->. Qed.
 Lemma substvar_len : forall i name p r, substvar_loop name i = Ok (p, r) -> (len r < len i)%nat.
 Proof.
   induction i as [|c i IH]; intros name p r; cbn [substvar_loop]; [discriminate|].
-  destruct (eqc c 0); [discriminate|]. destruct (eqc c 125).
+  destruct (bad_in_substvar c); [discriminate|]. destruct (eqc c 125).
   - cbv zeta. destruct (_ || _ || _); [|discriminate]. intros E. inversion E; subst. pose proof (eat_ws_len i). cbn. lia.
   - intros E. apply IH in E. cbn. lia.
 Qed.
@@ -44,7 +44,7 @@ Qed.
 Lemma number_len : forall i num n r, number_loop num i = Ok (n, r) -> (len r <= len i)%nat /\ r <> [].
 Proof.
   induction i as [|c i IH]; intros num n r; cbn [number_loop]; [discriminate|].
-  destruct (eqc c 0); [discriminate|]. destruct (eqc c 41).
+  destruct (bad_in_number c); [discriminate|]. destruct (eqc c 41).
   - intros E. inversion E; subst. split; [lia|discriminate].
   - intros E. destruct (IH _ _ _ E). split; [cbn; lia|assumption].
 Qed.
@@ -70,7 +70,7 @@ Qed.
 Lemma arch_name_len : forall i name a r, arch_name_loop name i = Ok (a, r) -> (len r <= len i)%nat.
 Proof.
   induction i as [|c i IH]; intros name a r; cbn [arch_name_loop]; [discriminate|].
-  destruct (eqc c 0); [discriminate|]. destruct (eqc c 33); [discriminate|]. destruct (eqc c 93 || is_ws c).
+  destruct (bad_in_arch c); [discriminate|]. destruct (eqc c 33); [discriminate|]. destruct (eqc c 93 || is_ws c).
   - intros E. apply arch_named_len in E. subst. lia.
   - intros E. apply IH in E. cbn. lia.
 Qed.
@@ -87,7 +87,7 @@ Proof.
     pose proof (arch_name_len _ _ _ _ N). pose proof (adv_len_lt i Hne). lia.
   - destruct (match a_list set with [] => Some false | _ :: _ => if Bool.eqb (a_not set) false then Some (a_not set) else None end); [|discriminate].
     destruct i as [|c i']; [congruence|]. cbn [peek] in *. cbn [arch_name_loop].
-    destruct (eqc c 0); [discriminate|]. rewrite H33, H93, Hw. cbn [orb].
+    destruct (bad_in_arch c); [discriminate|]. rewrite H33, H93, Hw. cbn [orb].
     destruct (arch_name_loop ([] ++ enc c) i') as [[a k]| |] eqn:N; try discriminate. intros E. inversion E; subst.
     pose proof (arch_name_len _ _ _ _ N). cbn. lia.
 Qed.
@@ -108,7 +108,7 @@ Proof.
   destruct (match a_list set with [] => _ | _ => _ end); [|discriminate].
   assert (G : forall nm j, arch_name_loop nm j <> OutOfFuel).
   { intros nm j. revert nm. induction j as [|c j IH]; intros nm; cbn; [discriminate|].
-    destruct (eqc c 0); [discriminate|]. destruct (eqc c 33); [discriminate|]. destruct (eqc c 93 || is_ws c); [apply arch_named_nofuel|apply IH]. }
+    destruct (bad_in_arch c); [discriminate|]. destruct (eqc c 33); [discriminate|]. destruct (eqc c 93 || is_ws c); [apply arch_named_nofuel|apply IH]. }
   destruct (arch_name_loop [] _) as [[a k]| |] eqn:N; try discriminate. exfalso. eapply G; eauto.
 Qed.
 
@@ -131,7 +131,7 @@ Qed.
 Lemma stage_loop_len : forall i st st' r, stage_loop st i = Ok (st', r) -> (len r <= len i)%nat.
 Proof.
   induction i as [|c i IH]; intros st st' r; cbn [stage_loop]; [discriminate|].
-  destruct (eqc c 0); [discriminate|]. destruct (eqc c 33).
+  destruct (bad_in_stage c); [discriminate|]. destruct (eqc c 33).
   - destruct (s_not st); [discriminate|]. intros E. apply IH in E. cbn. lia.
   - destruct (eqc c 62 || is_ws c).
     + intros E. inversion E; subst. lia.
@@ -140,7 +140,7 @@ Qed.
 Lemma stage_loop_nofuel : forall i st, nofuel (stage_loop st i).
 Proof.
   unfold nofuel. induction i as [|c i IH]; intros st; cbn [stage_loop]; [discriminate|].
-  destruct (eqc c 0); [discriminate|]. destruct (eqc c 33); [destruct (s_not st); [discriminate|apply IH]|].
+  destruct (bad_in_stage c); [discriminate|]. destruct (eqc c 33); [destruct (s_not st); [discriminate|apply IH]|].
   destruct (eqc c 62 || is_ws c); [discriminate|apply IH].
 Qed.
 (* a stage starting at a byte that is neither blank, '>' nor NUL consumes it *)
@@ -148,7 +148,7 @@ Lemma stage_loop_progress i st st' r : i <> [] -> is_ws (peek i) = false -> eqc 
   stage_loop st i = Ok (st', r) -> (len r < len i)%nat.
 Proof.
   intros Hne Hw H62. destruct i as [|c i]; [congruence|]. cbn [peek] in *. cbn [stage_loop].
-  destruct (eqc c 0); [discriminate|]. destruct (eqc c 33).
+  destruct (bad_in_stage c); [discriminate|]. destruct (eqc c 33).
   - destruct (s_not st); [discriminate|]. intros E. apply stage_loop_len in E. cbn. lia.
   - rewrite H62, Hw. cbn [orb]. intros E. apply stage_loop_len in E. cbn. lia.
 Qed.
@@ -208,8 +208,8 @@ Lemma parse_version_nofuel i : nofuel (parse_version i).
 Proof.
   unfold nofuel, parse_version. destruct (parse_operator _) as [[op k]| |] eqn:O; try discriminate.
   - assert (G : forall nm j, number_loop nm j <> OutOfFuel).
-    { intros nm j. revert nm. induction j as [|c j IH]; intros nm; cbn; [discriminate|].
-      destruct (eqc c 0); [discriminate|]. destruct (eqc c 41); [discriminate|apply IH]. }
+    { intros nm j. revert nm. induction j as [|c j IH]; intros nm; cbn [number_loop]; [discriminate|].
+      destruct (bad_in_number c); [discriminate|]. destruct (eqc c 41); [discriminate|apply IH]. }
     destruct (number_loop [] (eat_ws k)) as [[n m]| |] eqn:N; try discriminate. exfalso. eapply G; eauto.
   - exfalso. unfold parse_operator in O. destruct (eqc _ 61); [destruct (_ || _); discriminate|]. destruct (_ || _); [discriminate|]. destruct (_ || _); [destruct (_ || _); discriminate|discriminate].
 Qed.
@@ -322,8 +322,8 @@ Proof.
     unfold parse_substvar.
     assert (Ej : eat_ws j = j) by (subst j; apply eat_ws_id_local; apply eat_ws_head). rewrite Ej.
     assert (NF : forall nm x, substvar_loop nm x <> OutOfFuel).
-    { intros nm x. revert nm. induction x as [|c x IHx]; intros nm; cbn; [discriminate|].
-      destruct (eqc c 0); [discriminate|]. destruct (eqc c 125); [cbv zeta; destruct (_ || _ || _); discriminate|apply IHx]. }
+    { intros nm x. revert nm. induction x as [|c x IHx]; intros nm; cbn [substvar_loop]; [discriminate|].
+      destruct (bad_in_substvar c); [discriminate|]. destruct (eqc c 125); [cbv zeta; destruct (_ || _ || _); discriminate|apply IHx]. }
     destruct (substvar_loop [] (adv (adv j))) as [[p1 r1]| |] eqn:SV; [|split; discriminate|exfalso; eapply NF; eauto].
     split; [discriminate|]. intros rel' r E. inversion E; subst.
     pose proof (substvar_len _ _ _ _ SV). pose proof (adv_len (adv j)). pose proof (adv_len_lt j Jne). split; lia.
